@@ -119,7 +119,7 @@ fn stack_case<W: Num>(run: &mut Run, rng: &mut Rng) {
         }};
     }
     for _ in 0..n {
-        let op = rng.below(12);
+        let op = rng.below(13);
         run.h(op);
         if bits % wb == 0 {
             boundary_ops += 1;
@@ -189,6 +189,24 @@ fn stack_case<W: Num>(run: &mut Run, rng: &mut Rng) {
                     fail!("C16/reimport-changes-content", "re-imported stack has extra bits");
                 }
                 run.count("reimports", 1);
+            }
+            11 => {
+                // temporary view of the sealed words: must show what into_compressed would return
+                // and must leave the coder untouched (also when the current word is exactly full)
+                let mut twin = StackCoder::<W>::new();
+                for it in &shadow {
+                    write_item::<constriction::Stack, _>(&mut twin, it, &henc);
+                }
+                let exp = twin.into_compressed().unwrap_infallible();
+                let got: Vec<W> = st.get_compressed().to_vec();
+                log.push("get_compressed".to_string());
+                if got != exp {
+                    fail!("C16/view-differs", "get_compressed() shows {:?}, into_compressed of an identical coder returns {:?}", got.iter().map(|x| x.as_u()).collect::<Vec<_>>(), exp.iter().map(|x| x.as_u()).collect::<Vec<_>>());
+                }
+                if st.len() != bits || st.is_empty() != (bits == 0) {
+                    fail!("C16/inspection-changed-content", "after dropping the get_compressed() view: len()={} is_empty()={} with {bits} bits on the stack", st.len(), st.is_empty());
+                }
+                run.count("stack_views", 1);
             }
             _ => {
                 // views: iter / as_decoder / into_decoder on a twin
